@@ -163,7 +163,7 @@ func genDtrexc(g *vlib.G) {
 					if g.Stopped() {
 						return
 					}
-					g.Case(fmt.Sprintf("Dtrexc n=%d blocks=%s fill=%d ld=n+%d", n, blockLabel(blocks), fill, ldx), func(t *vlib.T) {
+					kase(g, fmt.Sprintf("Dtrexc n=%d blocks=%s fill=%d ld=n+%d", n, blockLabel(blocks), fill, ldx), func(t *vlib.T) {
 						runDtrexc(t, n, blocks, fill, ldx)
 					})
 				}
@@ -324,7 +324,7 @@ func genDlaexc(g *vlib.G) {
 					if g.Stopped() {
 						return
 					}
-					g.Case(fmt.Sprintf("Dlaexc n=%d blocks=%s fill=%d ld=n+%d", n, blockLabel(blocks), fill, ldx), func(t *vlib.T) {
+					kase(g, fmt.Sprintf("Dlaexc n=%d blocks=%s fill=%d ld=n+%d", n, blockLabel(blocks), fill, ldx), func(t *vlib.T) {
 						runDlaexc(t, n, blocks, fill, ldx)
 					})
 				}
@@ -435,7 +435,7 @@ func genDlanv2(g *vlib.G) {
 	for _, a := range lanv2Alphabet {
 		for _, b := range lanv2Alphabet {
 			a, b := a, b
-			g.Case(fmt.Sprintf("Dlanv2 a=%v b=%v", a, b), func(t *vlib.T) {
+			kase(g, fmt.Sprintf("Dlanv2 a=%v b=%v", a, b), func(t *vlib.T) {
 				kinds := map[string]int{}
 				for _, c := range lanv2Alphabet {
 					for _, d := range lanv2Alphabet {
@@ -518,7 +518,7 @@ func genDgebal(g *vlib.G) {
 			for _, job := range []lapack.BalanceJob{lapack.BalanceNone, lapack.Permute, lapack.Scale, lapack.PermuteScale} {
 				for _, ldx := range []int{0, 2} {
 					n, seed, job, ldx := n, seed, job, ldx
-					g.Case(fmt.Sprintf("Dgebal n=%d seed=%d job=%c ld=n+%d", n, seed, job, ldx), func(t *vlib.T) {
+					kase(g, fmt.Sprintf("Dgebal n=%d seed=%d job=%c ld=n+%d", n, seed, job, ldx), func(t *vlib.T) {
 						runDgebal(t, n, seed, job, ldx)
 					})
 				}
@@ -683,7 +683,7 @@ func genDtrevc3(g *vlib.G) {
 						if g.Stopped() {
 							return
 						}
-						g.Case(fmt.Sprintf("Dtrevc3 n=%d blocks=%s fill=%d prof=%s ld=+%d", n, blockLabel(blocks), fill, p.name, ldx), func(t *vlib.T) {
+						kase(g, fmt.Sprintf("Dtrevc3 n=%d blocks=%s fill=%d prof=%s ld=+%d", n, blockLabel(blocks), fill, p.name, ldx), func(t *vlib.T) {
 							runDtrevc3(t, n, blocks, fill, p, ldx, false)
 						})
 					}
@@ -719,7 +719,7 @@ func genDtrevc3(g *vlib.G) {
 				if g.Stopped() {
 					return
 				}
-				g.Case(fmt.Sprintf("Dtrevc3 n=%d blocks=%s long", n, blockLabel(blocks)), func(t *vlib.T) {
+				kase(g, fmt.Sprintf("Dtrevc3 n=%d blocks=%s long", n, blockLabel(blocks)), func(t *vlib.T) {
 					runDtrevc3(t, n, blocks, 0, profiles[0], 1, true)
 				})
 			}
